@@ -44,14 +44,19 @@ def make_geom(gc):
     return RegionGeom(cfg)
 
 
-def judge(gc, u, s_list=S_ALPHABET):
-    """u: array (4, N). returns (violations [(clause, idx, expected, observed, s)], info dict)"""
+def judge(gc, u, s_list=S_ALPHABET, g=None):
+    """u: array (4, N). returns (violations [(clause, idx, expected, observed, s)], info dict). g: an existing geometry
+    object to throw on (history clause); a fresh one otherwise."""
     u = np.asarray(u, dtype=np.float64)
     u_in = u.copy()
-    g = make_geom(gc)
-    with np.errstate(all="ignore"):
-        g.throw(u)
+    if g is None:
+        g = make_geom(gc)
     out = []
+    try:
+        with np.errstate(all="ignore"):
+            g.throw(u)
+    except Exception as ex:
+        return [("throw_no_exception", 0, "a thrown batch", f"{type(ex).__name__}: {str(ex)[:100]}", None)], dict(L=np.zeros(u.shape[1]), mask=np.zeros(u.shape[1], bool), beta=np.zeros(u.shape[1]), lat=np.zeros(u.shape[1]), lon=np.zeros(u.shape[1]), rowfin=np.zeros(u.shape[1], bool))
     N = u.shape[1]
     L = np.asarray(g.losPathLen, dtype=np.float64)
     Lmin, Lmax, aH = G.limits(gc["alt"], gc["limb"])
@@ -119,8 +124,12 @@ def judge(gc, u, s_list=S_ALPHABET):
         Pk = n[kept]
         bk = np.radians(beta[kept])
         for s in s_list:
-            with np.errstate(all="ignore"):
-                la, lo = g.find_lat_long_along_traj(np.full(len(kept), float(s)))
+            try:
+                with np.errstate(all="ignore"):
+                    la, lo = g.find_lat_long_along_traj(np.full(len(kept), float(s)))
+            except Exception as ex:
+                out.append(("along_traj_no_exception", int(kept[0]), "positions", f"{type(ex).__name__}: {str(ex)[:100]}", float(s)))
+                continue
             la = np.asarray(la, dtype=np.float64)
             lo = np.asarray(lo, dtype=np.float64)
             q = G.unit_from_latlong(la, lo)
@@ -222,9 +231,47 @@ def run(ctx):
                 per[c] = per.get(c, 0) + 1
                 ctx.violation(c, {"gc": gc, "u": Ut[:, i].tolist(), "s": s, "alt": gc["alt"], "u4": float(Ut[3, i]), "s_pos": bool(s and s > 0)}, e, o)
     ctx.cov["threshold_points"] = nthr
+    # histories: ONE geometry object thrown several times (different u, different batch sizes, equal batch sizes with
+    # different kept sets), every clause re-judged after each throw, accessors used in between
+    a6 = (np.arange(6) + 0.5) / 6
+    Ua = np.array(list(itertools.product(a6, repeat=4))).T
+    Ub = Ua[::-1].copy()
+    Uc = Ua[:, ::-1].copy()
+    Ud = Ua[:, :500].copy()
+    nh = 0
+    for gc in [geom_cfg(525.0, 0.2, 0.3, 7.0, 30.0, 360.0), geom_cfg(33.0, -0.2, 3.0, 2.0, 60.0, 90.0)]:
+        for seq in ([Ua, Ub, Ua], [Ud, Ua, Uc], [Uc, Ud, Ud]):
+            g = make_geom(gc)
+            for step, Ux in enumerate(seq):
+                v, info = judge(gc, Ux, [0.0, 10.0], g=g)
+                nh += 1
+                ctx.tick(Ux.shape[1] * 3, ("history", gc["alt"], step))
+                per = {}
+                for c, i, e, o, s in v:
+                    if per.get(c, 0) >= 4:
+                        continue
+                    per[c] = per.get(c, 0) + 1
+                    ctx.violation(c, {"kind": "history", "gc": gc, "seq": [int(x.shape[1]) for x in seq], "u": Ux[:, i].tolist(), "s": s, "alt": gc["alt"], "u4": float(Ux[3, i]), "s_pos": bool(s and s > 0)}, e, o,
+                                  alt_case={"kind": "history_full", "gc": gc, "which": [["Ua", "Ub", "Ua"], ["Ud", "Ua", "Uc"], ["Uc", "Ud", "Ud"]][[id(x) for x in ([Ua, Ub, Ua], [Ud, Ua, Uc], [Uc, Ud, Ud])].index(id(seq)) if False else 0], "step": step, "clause_idx": int(i)})
+    ctx.cov["history_throws"] = nh
+
+
+def _history_replay(case):
+    a6 = (np.arange(6) + 0.5) / 6
+    Ua = np.array(list(itertools.product(a6, repeat=4))).T
+    named = {"Ua": Ua, "Ub": Ua[::-1].copy(), "Uc": Ua[:, ::-1].copy(), "Ud": Ua[:, :500].copy()}
+    out = []
+    for which in (["Ua", "Ub", "Ua"], ["Ud", "Ua", "Uc"], ["Uc", "Ud", "Ud"]):
+        g = make_geom(case["gc"])
+        for nm in which:
+            v, _ = judge(case["gc"], named[nm], [0.0, 10.0], g=g)
+            out += [(c, e, o) for c, i, e, o, s2 in v[:50]]
+    return out
 
 
 def replay(case):
+    if case.get("kind") == "history_full":
+        return _history_replay(case)
     u = np.array(case["u"], dtype=np.float64).reshape(4, 1)
     s = case.get("s")
     v, _ = judge(case["gc"], u, [s] if s is not None else [0.0])
